@@ -14,18 +14,34 @@ type bounds struct {
 	Terms0      []Term   `json:"-"`
 	TermNames   []string `json:"terminators"`
 	Term0Names  []string `json:"terminators_of_entry_body"`
+	// creation transactions only: further terminators of the entry body (= the
+	// init code of the transaction) and the gas limits of a creation
+	// transaction ending in RETURN(300-byte code)
+	Terms0Create     []Term   `json:"-"`
+	Term0CreateNames []string `json:"further_terminators_of_a_creation_transaction"`
+	CreateTxGas      []uint64 `json:"gas_limits_of_a_depositing_creation_transaction_0_is_unlimited"`
+	// boundary probe: programs of at most this many actions whose first
+	// depositing creation frame (of transaction 1, of transaction 2) is driven
+	// to the gas limit at which the deposit is paid exactly, then every limit
+	// within +-ProbeWindow of it
+	ProbeTotal  int `json:"boundary_probe_max_actions_total"`
+	ProbeWindow int `json:"boundary_probe_window"`
 }
 
 func quickBounds() bounds {
-	return bounds{MaxPerBody: 2, MaxTotal: 3, CreateTotal: 2, GasClasses: []int{gAll, gLim},
-		Terms:  []Term{TStop, TRevert, TInvalid, TOOG, TSDSelf, TSDOther},
-		Terms0: []Term{TStop, TRevert}}
+	return bounds{MaxPerBody: 2, MaxTotal: 3, CreateTotal: 2, GasClasses: []int{gAll, gLim, gDep},
+		Terms:        []Term{TStop, TRevert, TInvalid, TOOG, TSDSelf, TSDOther},
+		Terms0:       []Term{TStop, TRevert},
+		Terms0Create: []Term{TReturnDep, TReturnBig}, CreateTxGas: []uint64{0, txGasDep},
+		ProbeTotal: 2, ProbeWindow: 8}
 }
 
 func thoroughBounds() bounds {
-	return bounds{MaxPerBody: 2, MaxTotal: 4, CreateTotal: 3, GasClasses: []int{gAll, gLim, gZero}, ExtraLeaf: true,
-		Terms:  []Term{TStop, TRevert, TInvalid, TOOG, TSDSelf, TSDOther},
-		Terms0: []Term{TStop, TReturn, TRevert}}
+	return bounds{MaxPerBody: 2, MaxTotal: 4, CreateTotal: 3, GasClasses: []int{gAll, gLim, gDep, gZero}, ExtraLeaf: true,
+		Terms:        []Term{TStop, TRevert, TInvalid, TOOG, TSDSelf, TSDOther},
+		Terms0:       []Term{TStop, TReturn, TRevert},
+		Terms0Create: []Term{TReturnDep, TReturnBig}, CreateTxGas: []uint64{0, txGasDep},
+		ProbeTotal: 3, ProbeWindow: 40}
 }
 
 func (b *bounds) fill() {
@@ -38,6 +54,9 @@ func (b *bounds) fill() {
 	for _, t := range b.Terms0 {
 		b.Term0Names = append(b.Term0Names, termName[t])
 	}
+	for _, t := range b.Terms0Create {
+		b.Term0CreateNames = append(b.Term0CreateNames, termName[t])
+	}
 }
 
 // leafActions: what every body may do without entering another contract.
@@ -48,7 +67,7 @@ func (b *bounds) leafActions() []Action {
 			{K: ACall, Target: tgX, Value: 1}, {K: ACall, Target: tgN, Value: 0}, {K: ACall, Target: tgN, Value: 1},
 		}
 		for _, k := range []Kind{ACreate, ACreate2} {
-			for init := iOK; init <= iInvalid; init++ {
+			for init := iOK; init <= iDeposit; init++ {
 				for v := 0; v <= 1; v++ {
 					as = append(as, Action{K: k, Init: init, Value: v})
 				}
@@ -62,6 +81,7 @@ func (b *bounds) leafActions() []Action {
 			{K: ACall, Target: tgX, Value: 1}, {K: ACall, Target: tgN, Value: 0}, {K: ACall, Target: tgN, Value: 1},
 			{K: ACreate, Init: iOK, Value: 1}, {K: ACreate, Init: iRevert, Value: 1}, {K: ACreate, Init: iOversize, Value: 0}, {K: ACreate, Init: iInvalid, Value: 0},
 			{K: ACreate2, Init: iOK, Value: 0}, {K: ACreate2, Init: iRevert, Value: 1}, {K: ACreate2, Init: iInvalid, Value: 0},
+			{K: ACreate, Init: iDeposit, Value: 1}, {K: ACreate, Init: iDeposit, Value: 0}, {K: ACreate2, Init: iDeposit, Value: 1},
 		}
 	}
 	return []Action{
@@ -69,6 +89,7 @@ func (b *bounds) leafActions() []Action {
 		{K: ACall, Target: tgX, Value: 1}, {K: ACall, Target: tgN, Value: 1},
 		{K: ACreate, Init: iOK, Value: 1}, {K: ACreate, Init: iRevert, Value: 1}, {K: ACreate, Init: iOversize, Value: 0},
 		{K: ACreate2, Init: iOK, Value: 0}, {K: ACreate2, Init: iInvalid, Value: 0},
+		{K: ACreate, Init: iDeposit, Value: 1}, {K: ACreate2, Init: iDeposit, Value: 1},
 	}
 }
 
